@@ -54,7 +54,7 @@ func init() {
 			"a text of the greatest length of its family that holds none of the characters \" ? : is run in the default mode only; that such texts come out the same in all four modes is checked on every shorter text (counter mode_insensitivity_verified_texts)",
 			"line breaks are LF, CR LF or a bare CR (csvq's reading, the manual is silent); CR LF inside a literal means LF",
 			"evaluation is compared only for SELECT without FROM/INTO and with built-in deterministic functions; TZ=UTC; variables @a=1 @b='x' predeclared; where it is not compared the re-parsed tree must equal the original (positions and documented case-insensitive names aside)",
-			"termination is observed by a 90 s per-case watchdog, not proved; round trips already seen are remembered by 64-bit hashes",
+			"termination is observed by a per-case watchdog (45 s of CPU time or 1.5 GiB of memory without finishing), not proved; round trips already seen are remembered by 64-bit hashes",
 		},
 		Run:            c18Run,
 		Replay:         c18Replay,
@@ -178,15 +178,19 @@ func (s *c18State) flush() {
 
 // ---- run / replay ------------------------------------------------------------------------------------
 
-// c18Guard runs f on its own goroutine and reports a case that makes no progress for 90 s as a hang.
+// c18Guard runs f on its own goroutine and reports a case that does not finish as a hang: no case completed while
+// this process burnt 45 s of CPU time, or while its resident memory passed 1.5 GiB (a scanner that never reaches the
+// end of the text fills its buffer at hundreds of MB per second; the longest text here has a few dozen bytes).
+// No progress without CPU use (a blocked machine) for 10 minutes only ends the shard as not covered.
 func c18Guard(s *c18State, f func()) {
 	done := make(chan struct{})
 	go func() {
 		defer close(done)
 		f()
 	}()
-	last, still := int64(-1), 0
-	t := time.NewTicker(time.Second)
+	last := int64(-1)
+	cpuAt, wallAt := core.ProcessCPU(), time.Now()
+	t := time.NewTicker(200 * time.Millisecond)
 	defer t.Stop()
 	for {
 		select {
@@ -195,19 +199,27 @@ func c18Guard(s *c18State, f func()) {
 		case <-t.C:
 			now := s.ticks.Load()
 			p := s.inflight.Load()
-			if now == last && p != nil {
-				still++
-			} else {
-				still = 0
+			if now != last || p == nil {
+				last = now
+				cpuAt, wallAt = core.ProcessCPU(), time.Now()
+				continue
 			}
-			last = now
-			if still >= 90 {
-				s.c.Violate("hang:no-progress-for-90s", fmt.Sprintf("the case %s [%s] did not finish within 90 s (parser or evaluation does not terminate)",
-					p.Shown, c18Mode{p.Prep, p.Ansi}), p)
-				s.c.Incomplete("a case hung; this worker stopped its shard there")
-				s.stopped.Store(true)
-				return
+			cpu := core.ProcessCPU() - cpuAt
+			rss := core.ProcessRSS()
+			switch {
+			case cpu >= 45*time.Second:
+				s.c.Violate("hang:no-progress-for-45s-cpu", fmt.Sprintf("the case %s [%s] did not finish while the process used %.0f s of CPU time (parser or evaluation does not terminate)",
+					p.Shown, c18Mode{p.Prep, p.Ansi}, cpu.Seconds()), p)
+			case rss > 3<<29:
+				s.c.Violate("hang:runaway-memory", fmt.Sprintf("the case %s [%s] did not finish and the process grew to %d MiB (parser or evaluation does not terminate)",
+					p.Shown, c18Mode{p.Prep, p.Ansi}, rss>>20), p)
+			case time.Since(wallAt) > 10*time.Minute:
+			default:
+				continue
 			}
+			s.c.Incomplete("a case did not finish; this worker stopped its shard there")
+			s.stopped.Store(true)
+			return
 		}
 	}
 }
